@@ -1,7 +1,63 @@
 use encoding_rs::Encoding;
 use xhtmlchardet::detect;
 
+/// What an ASCII-compatible input declares about its own encoding.
+///
+/// Only the encoding pseudo-attribute of a leading XML declaration counts;
+/// white space around `=` and either quote style are allowed. Anything that
+/// merely looks similar further on (an attribute called `encoding`, a
+/// `charset=` in a comment) is content and says nothing about the encoding.
+///
+/// Returns `None` if the input does not start like an ASCII-compatible XML
+/// text (a UTF-16 / UCS-4 byte order mark or byte pattern), `Some(None)` if
+/// it does and declares no encoding, `Some(Some(label))` otherwise.
+fn declared_encoding(data: &[u8]) -> Option<Option<&[u8]>> {
+    let data = data.strip_prefix(&[0xEF, 0xBB, 0xBF]).unwrap_or(data);
+    if data.len() >= 2 && (data[0] == 0 || data[1] == 0 || data[0] >= 0xFE) {
+        return None;
+    }
+    let is_space = |b: u8| matches!(b, b' ' | b'\t' | b'\r' | b'\n');
+    let rest = match data.strip_prefix(b"<?xml") {
+        Some(rest) if rest.first().copied().map(is_space).unwrap_or(false) => rest,
+        _ => return Some(None),
+    };
+    let end = match rest.windows(2).position(|w| w == b"?>") {
+        Some(end) => end,
+        None => return Some(None),
+    };
+    let declaration = &rest[..end];
+    let mut i = 0;
+    while i < declaration.len() {
+        if is_space(declaration[i]) && declaration[i + 1..].starts_with(b"encoding") {
+            let mut j = i + 1 + b"encoding".len();
+            while j < declaration.len() && is_space(declaration[j]) {
+                j += 1;
+            }
+            if j < declaration.len() && declaration[j] == b'=' {
+                j += 1;
+                while j < declaration.len() && is_space(declaration[j]) {
+                    j += 1;
+                }
+                if j < declaration.len() && (declaration[j] == b'"' || declaration[j] == b'\'') {
+                    let quote = declaration[j];
+                    let value = &declaration[j + 1..];
+                    if let Some(len) = value.iter().position(|b| *b == quote) {
+                        return Some(Some(&value[..len]));
+                    }
+                }
+            }
+        }
+        i += 1;
+    }
+    Some(None)
+}
+
 pub fn encoding(data: &[u8], hint: Option<String>) -> Option<&'static Encoding> {
+    match declared_encoding(data) {
+        Some(Some(label)) => return Encoding::for_label(label),
+        Some(None) if hint.is_none() => return Some(encoding_rs::UTF_8),
+        _ => {}
+    }
     let mut cursor = std::io::Cursor::new(data);
     let charsets = detect(&mut cursor, hint).ok()?;
     // no encoding detected
